@@ -17,7 +17,7 @@ from vlib.runner import VERIF
 
 ID = "C03"
 EXTRACTORS = []
-LEAN_MODULES = ["HalmosVerif.Props.C03", "HalmosVerif.Props.C03Core", "HalmosVerif.Props.C03Calls"]
+LEAN_MODULES = ["HalmosVerif.Props.C03", "HalmosVerif.Props.C03Core", "HalmosVerif.Props.C03Calls", "HalmosVerif.Props.C03Setup"]
 RULE = (
     "test contracts from the grammar in tools/vlib/e2e.py: setUp() storing constants (sometimes CREATE-ing a helper) + 3 check_* "
     "functions with 1-3 static parameters (uint256/address/bool/int256) and optionally one dynamic parameter (bytes / uint256[]); "
